@@ -326,12 +326,16 @@ class ConnWorld(World):
     def _new_client(APIClient: Any, addresses: Any, password: Any, noise_psk: Any, expected_name: Any, kw: dict[str, Any]) -> Any:
         return APIClient(addresses[0], 6053, password, noise_psk=noise_psk, expected_name=expected_name, addresses=list(addresses), **kw)
 
+    stop_raises = False  # the application's stop callback fails (after it has been recorded)
+
     def _on_stop(self, expected: bool) -> None:
         st = self.conn.connection_state.name if self.conn is not None else "?"
         self.stops.append((self.loop.time(), bool(expected), st))
         self.note("on_stop", bool(expected))
         for h in self.stop_hooks:
             h(bool(expected))
+        if self.stop_raises and type(self)._on_stop is ConnWorld._on_stop:
+            raise RuntimeError("application stop callback failed")
 
     # --- what the client wrote ---------------------------------------------------------------
     def sent_frames(self, s: FakeSocket | None = None) -> list[tuple[int, bytes]]:
